@@ -20,6 +20,7 @@ from tools.gen import marsh as gen_marsh
 from tools.gen import vmaccess as gen_vm
 from tools.gen import pegaccess as gen_peg
 from tools.gen import unmarsh as gen_unmarsh
+from tools.gen import vmguards as gen_vmguards
 from tools.gen.csrc import ExtractError
 
 from vlib import build as vbuild
@@ -31,6 +32,7 @@ THEOREMS = ["JanetModel.Props.C10." + t for t in (
     "JanetModel.Bytecode.verify_sound_generic", "JanetModel.PegVerify.peg_verify_sound_generic",
     "JanetModel.Props.C10.unmarshal_total_inbounds_of_sites_ok", "JanetModel.Props.C10.unmarshal_terminates_of_sites_ok",
     "JanetModel.Props.C10.witness_missing_check_over_reads"]
+GUARD_OBLIGATIONS = ["JanetModel.Bytecode.GuardObligations.vm_value_guards", "JanetModel.Bytecode.GuardObligations.vm_value_guards_nonempty"]
 BYTES_OBLIGATIONS = ["JanetModel.Unmarsh.BytesObligations." + t for t in ("sites_ok", "unmarshal_total_inbounds", "unmarshal_terminates", "peg_size_checked", "asm_ok_only_after_verify")] + [
     "JanetModel.Unmarsh.PegSize.peg_alloc_covers_writes", "JanetModel.Unmarsh.PegSize.witness_peg_size_wraps"]
 PEG_OBLIGATIONS = ["JanetModel.PegVerify.Obligations." + t for t in ("peg_tables_consistent", "peg_verify_sound")]
@@ -397,6 +399,7 @@ def run(ctx):
         pops, pv, pu, pglob = gen_peg.extract(tree)
         pegrows = ig.PegRows(pops, pv, pu)
         ctx.gen("UnmarshSites.lean", gen_unmarsh.render(tree))
+        ctx.gen("VmGuards.lean", gen_vmguards.render(tree))
     except ExtractError as e:
         broken.append("translator: %s" % e)
         ctx.broken.append(broken[-1])
@@ -419,6 +422,8 @@ def run(ctx):
     broken += peg_broken
     bytes_broken = ctx.obligations("JanetModel.Unmarsh.BytesObligations", BYTES_OBLIGATIONS)
     broken += bytes_broken
+    guard_broken = ctx.obligations("JanetModel.Bytecode.GuardObligations", GUARD_OBLIGATIONS)
+    broken += guard_broken
     if not quick and not broken:
         ok, log = ctx.leanchecker("JanetModel.Props.C10")
         if not ok:
@@ -431,6 +436,9 @@ def run(ctx):
             bad_rows = [int(x) for x in r[0].split()[1:]]
         if r[1] != "true" and not bad_rows:
             broken.append("tables_consistent is false (masks / dispatch table)")
+        rg = ctx.model(["vmguards"], exe=exe)[0]
+        if rg.startswith("bad"):
+            broken.append("vm_value_guards: value-dependent dereference without a dominating run-time test in vm.c: %s" % rg[4:])
     # (D) correspondence of the verify model with the real janet_verify
     vrng = ctx.rng.fork("verify")
     vlines = []
